@@ -313,6 +313,24 @@ def openSession (parse : Bytes → Bool × List Bytes × Option Bytes) (delimP :
         | none => .err .netconf
         | some v => .ok { ver := v, caps := caps, sid := sidN, sent := clientHello v ++ ret, queue := queue }
 
+/-- the end-of-message marker first completes at the very end of `H ++ delim` -/
+def delimFirstAtEnd (delim H : Bytes) : Bool := indexOf delim (H ++ delim) == some H.length
+
+/-- once the marker has arrived it is visible in the channel's search window, however many of the
+bytes that follow it arrived in the same read -/
+def windowOK (delim : Bytes) (depth : Nat) (H suffix : Bytes) : Bool :=
+  (List.range (suffix.length + 1)).all fun j =>
+    isInfix delim (window ((H ++ delim ++ suffix).take (H.length + delim.length + j)) depth)
+
+/-- what the property demands of `Open`, given the server's capabilities and session-id -/
+def specOpen (caps : List Bytes) (sid : Option Bytes) (pref ret : Bytes) (q : List Bytes) : Res :=
+  match sidValue sid with
+  | none => .err .netconf
+  | some n =>
+    match determineVersion caps pref with
+    | none => .err .netconf
+    | some v => .ok { ver := v, caps := caps, sid := n, sent := clientHello v ++ ret, queue := q }
+
 /-! ## what follows `Open`: request framing per selected version (message.serialize + sendRPC) -/
 
 /-- bytes written for one request: `serialize` framing, `WriteAndReturn`, and the extra
